@@ -140,7 +140,7 @@ func proveHandlerEntry(p *core.Program) (*handlerEntry, string) {
 // proveHandlerFn finds the function net/http invokes for "/prove" (see proveHandlerEntry) and server.Run.
 func proveHandlerFn(p *core.Program) (*ssa.Function, *ssa.Function, string) {
 	he, why := proveHandlerEntry(p)
-	run := p.Func("server", "Run")
+	run := serverRunFn(p)
 	if he == nil {
 		return nil, run, why
 	}
@@ -149,7 +149,7 @@ func proveHandlerFn(p *core.Program) (*ssa.Function, *ssa.Function, string) {
 
 // proveHandlerFnDirect finds the ServeHTTP method of the handler value registered for "/prove" in server.Run.
 func proveHandlerFnDirect(p *core.Program) (*ssa.Function, *ssa.Function, string) {
-	run := p.Func("server", "Run")
+	run := serverRunFn(p)
 	if run == nil {
 		return nil, nil, "anchor server.Run not found"
 	}
